@@ -1,6 +1,6 @@
 """C14 - cw4: only the admin changes a group, and hooks hear every change truthfully."""
 from ..engine import show, OPTION
-from ..idioms import dispatch, entry_points, loaded_from, nf, walk, response_entries
+from ..idioms import dispatch, entry_points, loaded_from, nf, walk, response_entries, controller_admin_guard
 from .cw4common import SENDER, BLOCK, HEIGHT, items
 
 ID = "C14"
@@ -71,10 +71,8 @@ def run(ctx):
                     if crate == "cw4_group" and ename != "instantiate" and writes:
                         n_guard += 1
                         first = writes[0][0]
-                        g = [(i, e) for i, e in prims if e.name == "Admin::assert_admin" and e.args[0] == ADMIN and e.args[-1] == SENDER and i < first]
-                        okc = any(c[0][0] == "call" and c[0][1] == "Admin::assert_admin" and c[0][2][0] == ADMIN and c[0][2][-1] == SENDER
-                                  and c[1] == "Ok" and c[3] <= first for c in p.conds)
-                        ctx.ob("R14.1", key + "/guard before membership writes", bool(g) and okc, sites=[writes[0][1].site],
+                        okc = controller_admin_guard(p, ADMIN, SENDER, before=first)
+                        ctx.ob("R14.1", key + "/guard before membership writes", okc, sites=[writes[0][1].site],
                                detail="MEMBERS/TOTAL written without ADMIN.assert_admin(deps, info.sender) = Ok before the first write",
                                sample={"guard": "ADMIN.assert_admin(deps, info.sender)"})
                     # ---- R14.3 / R14.4
